@@ -2,6 +2,7 @@
 //! process on this x86-64 host.  See /verif/DESIGN.md §2.1.
 
 mod arena;
+mod asyncs;
 mod driver;
 mod hist;
 mod hist_judge;
@@ -71,6 +72,10 @@ pub fn dispatch(req: &Value) -> Value {
         "threads" => match serde_json::from_value::<threads::ThreadCase>(req["case"].clone()) {
             Ok(c) => serde_json::to_value(threads::execute(&c)).unwrap(),
             Err(e) => json!({"harness_error": format!("bad thread case: {e}")}),
+        },
+        "async" => match serde_json::from_value::<asyncs::AsyncCase>(req["case"].clone()) {
+            Ok(c) => serde_json::to_value(asyncs::execute(&c)).unwrap(),
+            Err(e) => json!({"harness_error": format!("bad async case: {e}")}),
         },
         "ping" => json!({"pong": true}),
         _ => json!({"harness_error": format!("unknown op {op}")}),
@@ -311,6 +316,13 @@ fn cmd_threads(prop: &str) -> i32 {
     rec.finish(&out_path())
 }
 
+fn cmd_async(prop: &str) -> i32 {
+    let mut rec = Recorder::new(prop, "n-async", "N: family of 11 async functions (free and method; by-value and by-reference parameters; outputs (), u32 x3 incl. a method, u64, bool, String x2, Vec<u8>, (u64, String), a 264-byte struct returned through memory; every original bumps a counter and awaits a yield-once future) driven by a hand-written single-poll executor; generated histories of Fake(i, v) / Await(i, arg, executor thread 0..3) / re-Fake / EndLifetime, then every function awaited once more; oracle (model): while faked the first poll is Ready with the latest fake's value, the value expression is evaluated exactly once per await, the original body does not run; unfaked functions (incl. same-output-type siblings) yield their original value in two polls; after the lifetime all are original; non-trivial = history with an await of a same-output-type sibling of a faked function, a re-fake, the large by-memory output, or >= 2 lifetimes; distinct by history");
+    let n = cases(2400, 120_000);
+    run_sharded(&mut rec, 14, n, shards(), "async", Value::Null, Duration::from_secs(60), asyncs::strategy, asyncs::judge, |c| json!({"AsyncCase": c}));
+    rec.finish(&out_path())
+}
+
 fn cmd_sig(prop: &str) -> i32 {
     if prop == "C10" {
         let mut rec = Recorder::new(prop, "n-boolsig", "N: generated signature strings (type grammar rendered in type_name style; return types biased to renderings that merely end in `-> bool`: nested fn pointers, &dyn Fn() -> bool, raw pointers to fn types, and look-alikes Option<bool>, (bool,), [bool; 1], &bool) passed through FuncPtr::new + will_return_boolean(v); oracle (from the generated structure, never by parsing): accepted iff the top-level return type is exactly bool; refusal = panic with no interposed call and no byte changed; accepted => the call returns v; non-trivial = return type textually ending in `-> bool` without being bool, or bool behind >= 3 parameters; distinct by (string, value)");
@@ -410,6 +422,10 @@ fn cmd_replay(path: &str) -> i32 {
             }
         }
         r
+    } else if let Some(c) = case.get("AsyncCase") {
+        let c: asyncs::AsyncCase = serde_json::from_value(c.clone()).expect("AsyncCase");
+        let ex = w.exec(&json!({"op": "async", "case": c}), Duration::from_secs(60));
+        asyncs::judge(&mut rec, &c, ex, &hello)
     } else if let Some(c) = case.get("SigCase") {
         let c: sigs::SigCase = serde_json::from_value(c.clone()).expect("SigCase");
         let ex = w.exec(&json!({"op": "sig", "case": c}), Duration::from_secs(30));
@@ -455,6 +471,7 @@ fn main() {
         "hist" => cmd_hist(prop.as_deref().unwrap_or("C02")),
         "probe" => cmd_probe(prop.as_deref().unwrap_or("C13")),
         "sig" => cmd_sig(prop.as_deref().unwrap_or("C09")),
+        "async" => cmd_async(prop.as_deref().unwrap_or("C14")),
         "threads" => cmd_threads(prop.as_deref().unwrap_or("C04")),
         "panic" => cmd_panic(prop.as_deref().unwrap_or("C05")),
         "times" => cmd_times(prop.as_deref().unwrap_or("C06")),
